@@ -9,7 +9,9 @@ m = {
   "hooks": {"guard": "GEOMDL_VERIF", "enable": "none: every property is observed through the public API; no source hooks exist",
             "baseline_off_cmd": baseline, "source_commits": [], "add_only": True},
   "engines": [{"name": "hypothesis", "path": "vp/", "serves_properties": [c["property_id"] for c in CHECKS],
-               "kind_free_text": "Hypothesis 6.168 generators + exact rational reference model (vp/ref.py); plain-function oracles replayable without Hypothesis"}],
+               "kind_free_text": "Hypothesis 6.168 generators + exact rational reference model (vp/ref.py); plain-function oracles replayable without Hypothesis"},
+              {"name": "atheris", "path": "vp/fuzz.py", "serves_properties": ["C03", "C05", "C06", "C16", "C20"],
+               "kind_free_text": "atheris 3.1 (libFuzzer) with geomdl instrumented; mutates the byte stream feeding the sub-check's Hypothesis strategy (fuzz_one_input); same semantic oracle; thorough tier only"}],
   "checks": CHECKS,
   "not_applicable": NOT_APPLICABLE,
   "notes": NOTES,
